@@ -106,7 +106,7 @@ def random_strings(rng, alpha, frags, count, lo, hi):
 
 
 def run(tier, seed):
-    ml, cl, nrand = (4, 4, 60000) if tier == 'quick' else (5, 5, 1500000)
+    ml, cl, nrand = (4, 4, 150000) if tier == 'quick' else (5, 5, 1500000)
     rng = random.Random(seed)
     out = []
 
